@@ -3,12 +3,12 @@ import copy
 from .. import tlc, gen, common, srv_replay
 
 OPS = '{"Start","Begin","Step","Steps","Results","Metrics","Tick","End","SaveState","LoadState","Crash"}'
-DEV = '{"D16b_no_replay"}'      # generate with the faithful model so that both predictions are in the history
+DEV = '{"D16b_no_replay", "D15_compress_lossy"}'      # generate with the faithful model so that both predictions are in the history
 
 
-def consts(insts, stop, dev, ops=OPS, timeouts='{2,3}', ticks='{1,2}', maxnow=100000, kv='{0,2}', sv='{0,3,4}'):
+def consts(insts, stop, dev, compress=False, ops=OPS, timeouts='{2,3}', ticks='{1,2}', maxnow=100000, kv='{0,2}', sv='{0,3,4}'):
     return dict(Inst=insts, Timeouts=timeouts, Ticks=ticks, KVals=kv, StepVals=sv, Stop=str(stop), MaxNow=str(maxnow),
-                Scen='{"base","high"}', Ops=ops, Adapter="TRUE", Dev=dev)
+                Scen='{"base","high"}', Ops=ops, Adapter="TRUE", Compress="TRUE" if compress else "FALSE", Dev=dev)
 
 
 def replay_set(R, hs, compress, known_total, probe=True):
@@ -30,13 +30,13 @@ def run(tier, replay_file=None):
     R = common.Run("C19", tier, "model_checking")
     quick = tier == "quick"
     # design: with Dev = {} every step / results response equals the uninterrupted session's
-    mc = tlc.run("Server", dict(consts('{"i1"}', 2, '{}', timeouts='{2}', ticks='{2}', maxnow=4 if quick else 6, sv='{0,3}'), L='99'),
+    mc = tlc.run("Server", dict(consts('{"i1"}', 2, '{}', False, timeouts='{2}', ticks='{2}', maxnow=4 if quick else 6, sv='{0,3}'), L='99'),
                  invariants=["Continuity", "RoundTrip", "AliveOK", "GoneOK"], view="View", spec="Spec", timeout=3000)
     if mc.violation:
         R.violation("spec:" + mc.violation, {"trace": mc.trace[:3000]})
     R.cov["states"], R.cov["transitions"] = mc.distinct, mc.generated
     # the listed deviation must make the spec violate Continuity (otherwise the finding is vacuous)
-    dv = tlc.run("Server", dict(consts('{"i1"}', 2, DEV, timeouts='{2}', ticks='{2}', maxnow=4, sv='{0,3}'), L='99'),
+    dv = tlc.run("Server", dict(consts('{"i1"}', 2, '{"D16b_no_replay"}', False, timeouts='{2}', ticks='{2}', maxnow=4, sv='{0,3}'), L='99'),
                  invariants=["Continuity"], view="View", spec="Spec", timeout=3000)
     if dv.violation != "Continuity":
         raise common.Machinery("Dev={D16b_no_replay} does not violate Continuity in the spec: finding mis-modelled")
@@ -45,7 +45,7 @@ def run(tier, replay_file=None):
     for compress in (False, True):
         for insts in ('{"i1"}', '{"i1","i2"}'):
             n += 1
-            hs, _ = gen.histories("Server", consts(insts, 4, DEV), 16 if quick else 26, simulate=18 if quick else 200,
+            hs, _ = gen.histories("Server", consts(insts, 4, DEV, compress), 16 if quick else 26, simulate=18 if quick else 200,
                                   seed=common.seed() * 10 + n, cache=False)
             if not replay_set(R, hs, compress, known_total):
                 break
